@@ -294,7 +294,7 @@ func WorkerLoop(p *Plan, prop string, seed uint64, shard, nshard int, out string
 		}
 		t = t.Clone()
 		t.Sig, t.What = v.Sig, v.What
-		if p.Minimise {
+		if p.Minimise && os.Getenv("VERIF_NO_MINIMISE") == "" { // (sweeps over seeded changes only need the verdict)
 			t = Minimise(p, t, findings)
 		}
 		rep.Violations = append(rep.Violations, t)
